@@ -147,7 +147,29 @@ def rule_deq(ctx, rep):
         rep.check(okd and okn, "C12.dummy", g.name + ".guard", "destroy frees only a lone dummy head (else -EPERM)", "destroy frees the head without checking {dummy, no successor}", [fr[0].where()])
 
 
+def rule_who(ctx, rep):
+    """q->tail and q->head move only by compare-and-swap, wherever they are written: the only plain stores are the initialisation (and the
+    destroy-time checks write nothing).  An unconditional store anywhere - a `helping` fix-up in the dummy hand-over, a reset in a
+    corner path - can move the tail backwards over a node that is then dequeued and reused, or the head past nodes never returned."""
+    m = ctx.mod("cds", "perfn")
+    n = 0
+    for g in m.defined():
+        for fld, what in ((TAIL, "tail"), (HEAD, "head")):
+            for e in pat.accesses(g, fld, ("store", "rmw", "xchg", "cmpxchg")):
+                n += 1
+                if e.kind == "cmpxchg":
+                    rep.ok("C12.who", "%s.%s@%d" % (g.srcname, what, e.inst.line), "q->%s is updated by cmpxchg" % what)
+                    continue
+                init = g.srcname in ("_cds_lfq_init_rcu", "cds_lfq_init_rcu")
+                rep.check(init, "C12.who", "%s.%s@%d" % (g.srcname, what, e.inst.line), "plain store to q->%s in the initialisation" % what,
+                          "%s writes q->%s with an unconditional %s: between its reads and that store other threads may have advanced the %s several nodes - it is moved backwards onto "
+                          "a node that is (about to be) dequeued and handed back to the user, and the next enqueue links behind memory that is no longer in the queue" % (g.srcname, what, e.kind, what),
+                          [e.inst.where()])
+    pat.require(n >= 5, "only %d writes of q->head / q->tail found" % n)
+
+
 RULES = [
+    ("C12.who", rule_who),
     ("C12.enq", rule_enq),
     ("C12.deq", rule_deq),
     ("C12.exported", lambda c, r: __import__("sa.rules.c10", fromlist=["x"]).rule_wrappers(c, r, "C12.exported", ("lfq",))),
